@@ -177,3 +177,57 @@ Definition from_string (T : table) (kws : list str) (P : str) (nstrip : nat) (s 
           end
       end
   end.
+
+(* ------------------------------------------------------------ side conditions (decidable) *)
+Definition anchor : str := [67; 79; 66; 82; 65].       (* "COBRA": occurs in every escape *)
+Definition anchor_off : nat := 2%nat.
+
+Fixpoint occ (p s : str) : nat :=
+  match s with
+  | [] => 0%nat
+  | _ :: r => ((if prefixb p s then 1 else 0) + occ p r)%nat
+  end.
+Definition containsb (p s : str) : bool := negb (Nat.eqb (occ p s) 0).
+Definition memz (c : Z) (s : str) : bool := existsb (Z.eqb c) s.
+Definition agree (a b : str) : bool := prefixb a b || prefixb b a.
+
+Fixpoint tails (s : str) : list str := match s with [] => [] | _ :: r => s :: tails r end.
+Fixpoint pairwise {A} (f : A -> A -> bool) (l : list A) : bool :=
+  match l with [] => true | x :: r => forallb (fun y => f x y && f y x) r && pairwise f r end.
+
+Definition is_source (T : table) (c : Z) : bool := existsb (fun ce => str_eqb (fst ce) [c]) T.
+
+(* identifiers the escaping is claimed for: word characters and table characters, not containing
+   the reserved word, whose replaced form does not begin with the reserved prefix *)
+Definition id_okb (T : table) (P : str) (w : str) : bool :=
+  negb (match w with [] => true | _ => false end) &&
+  forallb (fun c => is_word c || is_source T c) w &&
+  negb (containsb anchor w) && negb (prefixb P (apply_repl T w)) &&
+  negb (str_eqb w s_and) && negb (str_eqb w s_or).
+
+Definition wf_entry (P : str) (ce : str * str) : bool :=
+  let (c, e) := ce in
+  match c with
+  | [x] => negb (is_word x) && negb (is_ws x) && negb (memz x [c_lp; c_rp; c_amp; c_bar])
+  | _ => false
+  end &&
+  forallb is_word e &&
+  Nat.eqb (occ anchor e) 1 && prefixb anchor (skipn anchor_off e) &&
+  match e with x :: _ => negb (memz x anchor) | [] => false end &&
+  match rev e with x :: _ => negb (memz x anchor) | [] => false end.
+
+Definition wf_repl (T : table) (P : str) : bool :=
+  forallb (wf_entry P) T &&
+  pairwise (fun a b => negb (str_eqb (fst a) (fst b))) T &&
+  pairwise (fun a b => negb (prefixb (snd a) (snd b))) T &&
+  negb (match P with [] => true | _ => false end) && forallb is_word P && negb (starts_digit P).
+
+Definition wf_kws (kws : list str) : bool :=
+  forallb (fun k => forallb is_word k && negb (starts_digit k) && negb (containsb anchor k)
+                    && negb (match k with [] => true | _ => false end)) kws &&
+  negb (mem s_and kws) && negb (mem s_or kws).
+
+(* a Python identifier that is not a keyword *)
+Definition is_py_name (kws : list str) (w : str) : bool :=
+  negb (match w with [] => true | _ => false end) && forallb is_word w && negb (starts_digit w) &&
+  negb (mem w kws) && negb (str_eqb w s_and) && negb (str_eqb w s_or).
